@@ -142,6 +142,11 @@ mod utils;
 mod errors;
 mod execution;
 
+#[cfg(feature = "verif")]
+pub mod verif;
+#[cfg(feature = "verif")]
+pub use price_level::{PriceLevelSnapshotPackage, PriceLevelStatistics};
+
 pub use errors::PriceLevelError;
 pub use execution::{MatchResult, Transaction};
 pub use orders::DEFAULT_RESERVE_REPLENISH_AMOUNT;
